@@ -156,7 +156,7 @@ impl Prop for C06 {
         vec![
             "whether an approval is still live after heartbeats/pruning is read from the node (only the existence of the approval, never amounts)".into(),
             "when a hash is approved again after its earlier approval was pruned, the allowance is the sum of the approvals granted (sound upper bound)".into(),
-            "the tolerated imbalance of an already-known uninvoiced routed payment (issue 331) is outside the oracle, including hashes whose first approval arrives only after such HTLCs were accepted".into(),
+            "the tolerated imbalance of an already-known uninvoiced routed payment (issue 331) is outside the oracle, including hashes whose approval (first, or a new one after the earlier approval expired and was pruned) arrives only after such HTLCs were accepted".into(),
         ]
     }
     fn cases(&self, tier: Tier) -> u32 {
@@ -216,6 +216,8 @@ impl Prop for C06 {
         // hashes first approved only after HTLCs for them had already been accepted while
         // uninvoiced (the tolerated issue-331 imbalance): outside the oracle
         let mut tainted: BTreeSet<u8> = BTreeSet::new();
+        // hashes for which an HTLC was accepted at a time when no approval for them was live
+        let mut seen_unlive: BTreeSet<u8> = BTreeSet::new();
         let mut shape: Vec<(u8, &'static str)> = vec![];
         let mut trace = vec![];
         let mut multi = false;
@@ -259,7 +261,10 @@ impl Prop for C06 {
                         // a new approval (possibly after an earlier one was pruned while parts paid
                         // under it are still in flight): the allowance is the sum of all approvals
                         // granted for the hash in this history - a sound upper bound
-                        if !approved.contains_key(h) && seen.contains(h) {
+                        if (!approved.contains_key(h) && seen.contains(h)) || seen_unlive.contains(h) {
+                            // HTLCs for this hash were accepted while no approval was live (never
+                            // approved yet, or the earlier approval had expired and been pruned):
+                            // the tolerated issue-331 imbalance, outside the oracle
                             tainted.insert(*h);
                             st.class("approval_after_uninvoiced_htlc(excluded)");
                         }
@@ -424,6 +429,9 @@ impl Prop for C06 {
                     }
                     for x in c.offered.iter().chain(c.received.iter()) {
                         seen.insert(x.h);
+                        if !live.contains(&x.h) {
+                            seen_unlive.insert(x.h);
+                        }
                     }
                 }
                 // clause 1: in-flight bound for every hash with a live approval
